@@ -1096,7 +1096,8 @@ pub fn gen_cap_server(tapes: &[Vec<u32>]) -> RawCase {
         ops.push(CapOp::Yield(300));
         ops.push(CapOp::CensusFinal);
         script.push(PStep::Yield(150));
-        script.push(PStep::Frame { f: Frame::WinUp { stream: 0, inc: 20000 + t.below(30000) as u32, inc_r: false }, extra_flags: 0, r_bit: false });
+        // (more than the blocked tail of A's body needs, so that something is left for B)
+        script.push(PStep::Frame { f: Frame::WinUp { stream: 0, inc: (body - 65535 + 1000 + t.below(30000)) as u32, inc_r: false }, extra_flags: 0, r_bit: false });
         script.push(PStep::Yield(1200));
     } else if return_variant && t.chance(1, 4) {
         // capacity limited by max_send_buffer_size: part of it is used, and the producer waits for it to come back
